@@ -296,7 +296,10 @@ void vs_run(const char *sched){
 		if(c>='A'&&c<'A'+NT){ int t=c-'A'; if((T[t].want_futex||T[t].want_cond)&&!T[t].woken){ T[t].woken=1; T[t].wake_reason=1; printf("%d spurious\n",t);} continue; }
 		if(c=='~'){ if(*p){ int t=*p++-'0'; if(t>=0&&t<NT) T[t].enosys_next=1; } continue; }
 		if(c=='!'){ if(*p){ int t=*p++-'0'; if(t>=0&&t<NT&&T[t].want_futex&&!T[t].woken){ T[t].woken=1; T[t].wake_reason=2; } } continue; }
-		if(c=='^'){ if(*p){ int t=*p++-'0'; if(t>=0&&t<NT&&T[t].alive&&sig_handler&&!T[t].want_futex&&T[t].want_join<0){ if(T[t].masked || holds_sigdefer(t)){ T[t].sig_deferred=1; } else { T[t].sig_pending=1; sem_post(&T[t].go); sem_wait(&ctl);} } } continue; }
+		if(c=='^'){ if(*p){ int t=*p++-'0'; if(t>=0&&t<NT&&T[t].alive&&sig_handler&&T[t].want_join<0&&!(T[t].want_futex&&T[t].woken)){ if(T[t].masked || holds_sigdefer(t)){ T[t].sig_deferred=1; } else {
+				/* a thread asleep in FUTEX_WAIT runs the handler and its system call then returns EINTR (handler installed without SA_RESTART) */
+				if(T[t].want_futex){ T[t].woken=1; T[t].wake_reason=2; }
+				T[t].sig_pending=1; sem_post(&T[t].go); sem_wait(&ctl);} } } continue; }
 		if(c=='}'){ /* solo run with report (C17): thread t alone until its current operation returns; at most 400 own steps */
 			if(*p){ int t=*p++-'0'; if(t>=0&&t<NT&&T[t].alive){ long r0=T[t].rets, s0=T[t].steps; int guard=0; const char *why="ok";
 				while(T[t].alive && T[t].rets==r0){
